@@ -352,6 +352,6 @@ MANIFEST = {
                   'come from one generator seeded by get_sub_seed(seed, batch) in a dependency-respecting node order that is the '
                   'same in both runs; the global generator is never touched (its stand-in logs every use).',
     'level_note': 'RandomState replaced by a position-named stream stub (contract: stream is a function of the seed); 5 programs, '
-                  '<=6 insertion orders, 5 histories, 3 batches, in-process clients only (native + reordering stub); real worker '
+                  '<=6 insertion orders, 5 histories, 3 batches, in-process clients only (native + reordering stub + the readiness-scheduled client of C04 for threshold / n_sim Rejection runs); real worker '
                   'processes and bit-level reproducibility of numpy are outside. z3 trusted.',
 }
